@@ -1,6 +1,9 @@
 import UsualProofs.C09.SafeMulProofs
 import UsualProofs.C09.PoolMem
 import UsualProofs.C09.PoolWrap
+import UsualProofs.C09.MemPoolProofs
+import UsualProofs.C09.SlabProofs
+import UsualProofs.C09.TreeHist
 /-! Property theorems for C09 — allocators hand out aligned, disjoint, stable blocks and return
     all memory; size computations never wrap.
 
@@ -261,4 +264,229 @@ theorem pool_k2_old_counterexample (fuel : Nat) :
     growToOld fuel 2048 (2 ^ 31 + 8) < 2 ^ 31 + 8 :=
   growToOld_never fuel
 
+/-! ## tree allocator (cx_new_tree) -/
+
+/-- `cx_destroy(tree)` (`tree_destroy`) passes to `cx_free(real, …)` exactly the addresses the
+    tree holds — its own struct, the header of every block, and all of that for every nested
+    sub-tree — each as often as it is held; if the addresses are pairwise different (fresh parent
+    answers), nothing is freed twice. -/
+theorem tree_destroy_returns_once (t : TNode) :
+    t.destroyList.Perm t.regions ∧ (t.regions.Nodup → t.destroyList.Nodup) :=
+  ⟨destroyList_perm t, destroyList_nodup t⟩
+
+example :
+    (TNode.mk 1 1000 [(2000, 24), (3000, 116)] [.mk 2 4000 [(5000, 20)] [.mk 3 6000 [] []], .mk 4 7000 [(8000, 17)] []]).destroyList
+      = [2000, 3000, 5000, 6000, 4000, 8000, 7000, 1000] := by decide
+
+/-- A block returned by `tree_alloc` starts right behind the 16-byte item header inside the
+    region obtained from `real` and ends exactly at the end of that region; the request to
+    `real` did not wrap.  Hence it is inside parent memory, as aligned as the parent's answer for
+    any alignment dividing 16, and disjoint from all other blocks whenever the parent's regions
+    are. -/
+theorem tree_block_ok {t t' : TNode} {id len q a req : Nat} {A : Nat}
+    (hreq : treeReq len = some req) (h : treeAlloc t id len (some a) = some (t', q))
+    (hA : 16 % A = 0) (ha : a % A = 0) :
+    a + treeHdr = q ∧ q + len = a + req ∧ req < 2 ^ 64 ∧ q % A = 0 := by
+  obtain ⟨h1, h2, h3, h4⟩ := treeAlloc_block hreq h
+  refine ⟨h1.symm, h3, h4, ?_⟩
+  subst h1
+  simp only [treeHdr]
+  rw [Nat.add_mod, ha, hA]; simp
+
+example : (treeAlloc (.mk 1 1000 [] []) 1 100 (some 4096)).map (fun r => (r.1.items, r.2)) =
+    some ([(4096, 116)], 4112) := by decide
+
+/- FULL STATEMENT (not proved; `tree_history_tracks_partial` below is the `tree_alloc` case):
+   theorem tree_history_tracks : for every history of cx_alloc / cx_realloc / cx_free / cx_new_tree /
+   cx_destroy(sub-tree) on a forest with unique ids, the multiset of addresses the forest holds
+   (`regions`) equals the multiset of addresses obtained from `real` and not yet returned to it.
+   Missing: the analogous `update_regions` lemmas for `treeDelItem` (free, realloc) and for
+   `TNode.remove` (destroy of a sub-tree).  These cases are covered by the correspondence run
+   (balance `live=` after every destroy), not by a theorem. -/
+/-- Bookkeeping over histories: after `tree_alloc` on any tree `id` of a forest (nested sub-trees,
+    unique allocator ids) the forest holds exactly one more address, the one just obtained from
+    `real`; together with `tree_destroy_returns_once` every address obtained is returned once. -/
+theorem tree_history_tracks_partial {t t' : TNode} {id len q a : Nat} (hid : id ∈ t.ids) (hnd : t.ids.Nodup)
+    (h : treeAlloc t id len (some a) = some (t', q)) : t'.regions.Perm (a :: t.regions) :=
+  treeAlloc_regions hid hnd h
+
+example : ((treeAlloc (.mk 1 1000 [(2000, 24)] [.mk 2 4000 [] []]) 2 50 (some 9000)).map
+    (fun r => r.1.destroyList)) = some [2000, 9000, 4000, 1000] := by decide
+
+/-- `TREE_HDR + len` is refused instead of wrapping (F20). -/
+theorem tree_no_wrap (len : Nat) (hl : len < 2 ^ 64) :
+    (treeReq len = none ∧ 2 ^ 64 ≤ treeHdr + len) ∨ (treeReq len = some (treeHdr + len) ∧ treeHdr + len < 2 ^ 64) := by
+  unfold treeReq sizeMax treeHdr
+  split
+  · left; exact ⟨rfl, by omega⟩
+  · right; exact ⟨rfl, by omega⟩
+
+example : treeReq (2 ^ 64 - 8) = none := by decide
+
+/-! ## slab -/
+
+/-- histories of `slab_alloc` / `slab_free` on a slab created by `slab_create`; `live` are the
+    objects the client holds, `obtained` the regions taken from the parent -/
+inductive SReach : Slab → List Nat → List (Nat × Nat) → Prop
+  | create {objSize align a : Nat} {s : Slab} : slabCreate objSize align (some a) = some s →
+      SReach s [] [(a, sizeofSlab)]
+  | alloc {s s' : Slab} {live : List Nat} {ob : List (Nat × Nat)} {o : Nat} {pa : Option Nat} :
+      SReach s live ob → (∀ req, slabAllocReq s = some req → SParentOk s req pa) →
+      slabAlloc s pa = (s', some o) →
+      SReach s' (o :: live) (obtainedAfter ob (slabAllocReq s) pa)
+  | free {s : Slab} {live : List Nat} {ob : List (Nat × Nat)} {o : Nat} :
+      SReach s live ob → o ∈ live → SReach (slabFree s o) (live.erase o) ob
+
+theorem slab_reach_inv {s : Slab} {live : List Nat} {ob : List (Nat × Nat)} (h : SReach s live ob) :
+    SInv s live ∧ ob = (s.hdr, sizeofSlab) :: s.frags := by
+  induction h with
+  | create hc =>
+    simp only [slabCreate, Option.map_some, Option.some.injEq] at hc
+    subst hc
+    exact ⟨⟨slabFinalSize_ge _ _, by simp, by intro o ho; simp at ho, by simp⟩, rfl⟩
+  | @alloc s s' live ob o pa _ hpa hr ih =>
+    refine ⟨slabAlloc_inv ih.1 hpa hr, ?_⟩
+    unfold slabAlloc at hr
+    cases hfl : s.freelist with
+    | cons x rest =>
+      simp only [hfl, Prod.mk.injEq] at hr
+      rw [← hr.1]
+      simp [slabAllocReq, hfl, obtainedAfter, ih.2]
+    | nil =>
+      simp only [hfl] at hr
+      cases pa with
+      | none => simp at hr
+      | some a =>
+        simp only [] at hr
+        cases hfl2 : (slabGrow s a).freelist with
+        | nil => simp [hfl2] at hr
+        | cons x rest =>
+          simp only [hfl2, Prod.mk.injEq] at hr
+          rw [← hr.1]
+          simp [slabAllocReq, hfl, obtainedAfter, ih.2, slabGrow]
+  | free _ ho ih => exact ⟨slabFree_inv ih.1 ho, ih.2⟩
+
+/-- Every object `slab_alloc` returns is a slot of one fragment obtained from the parent (behind
+    the fragment header, `final_size ≥ obj_size` bytes inside the fragment), is different from —
+    and at least `final_size` bytes away from — every object the client still holds. -/
+theorem slab_block_ok {s s' : Slab} {live : List Nat} {ob : List (Nat × Nat)} {o : Nat} {pa : Option Nat}
+    (h : SReach s live ob) (hpa : ∀ req, slabAllocReq s = some req → SParentOk s req pa)
+    (hr : slabAlloc s pa = (s', some o)) :
+    (∃ f ∈ s'.frags, f.1 + slabFragHdr ≤ o ∧ o + s'.finalSize ≤ f.1 + f.2) ∧
+    (∀ p ∈ live, o + s'.finalSize ≤ p ∨ p + s'.finalSize ≤ o) := by
+  have hi := slabAlloc_inv (slab_reach_inv h).1 hpa hr
+  obtain ⟨f, hf, hslot⟩ := hi.slot o (by simp)
+  refine ⟨⟨f, hf, ?_⟩, ?_⟩
+  · obtain ⟨i, rfl, hb⟩ := hslot
+    have : (i + 1) * s'.finalSize = i * s'.finalSize + s'.finalSize := Nat.succ_mul _ _
+    omega
+  · intro p hp
+    obtain ⟨g, hg, hslotp⟩ := hi.slot p (by simp [hp])
+    have hne : o ≠ p := by
+      have hnd := hi.nodup
+      rw [List.nodup_append] at hnd
+      have := (List.nodup_cons.mp hnd.2.1).1
+      intro e; exact this (e ▸ hp)
+    have hfg : f = g ∨ fragDisj f g ∨ fragDisj g f := pairwise_mem_cases hi.frag_disj hf hg
+    exact slots_apart hslot hslotp hfg hne
+
+/-- example history: slab of 1000-byte objects, alignment 16; first `slab_alloc` grows by 50 objects -/
+def exSlab0 : Slab := { hdr := 4096, finalSize := slabFinalSize 1000 16, total := 0, freelist := [], frags := [] }
+def exSlab1 : Slab := (slabAlloc exSlab0 (some 8192)).1
+
+example : SReach exSlab1 [8208] (obtainedAfter [(4096, sizeofSlab)] (slabAllocReq exSlab0) (some 8192)) ∧
+    exSlab1.total = 50 ∧ exSlab1.freelist.take 2 = [9216, 10224] :=
+  ⟨SReach.alloc (SReach.create (objSize := 1000) (align := 16) (a := 4096) rfl)
+    (by intro req _ a _ f hf; simp [exSlab0] at hf)
+    (Prod.ext rfl (by decide +kernel : (slabAlloc exSlab0 (some 8192)).2 = some 8208)),
+   by decide +kernel, by decide +kernel⟩
+
+/-- alignment of slab objects (slab.h: alignments up to what the parent delivers, at most 16):
+    a slot of a fragment at an `A`-aligned address is `A`-aligned when `A` divides the fragment
+    header (16) and `final_size`; and `init_slab` makes `final_size` a multiple of the requested
+    alignment (8 when none or less is asked for) not smaller than the object size. -/
+theorem slab_align_ok {fs A : Nat} {f : Nat × Nat} {o : Nat} (hs : IsSlot fs f o)
+    (hf : f.1 % A = 0) (h16 : 16 % A = 0) (hfs : fs % A = 0) : o % A = 0 := by
+  obtain ⟨i, rfl, _⟩ := hs
+  have : (i * fs) % A = 0 := by rw [Nat.mul_mod, hfs]; simp
+  simp only [slabFragHdr]
+  rw [Nat.add_mod, Nat.add_mod f.1, hf, h16, this]; simp
+
+theorem slab_final_size_ok (objSize align : Nat) (hal : align = 0 ∨ align = 8 ∨ align = 16)
+    (hsz : objSize + 16 < 2 ^ 32) :
+    objSize ≤ slabFinalSize objSize align ∧
+    slabFinalSize objSize align % (if align = 16 then 16 else 8) = 0 := by
+  unfold slabFinalSize
+  have h8 := alignUp_ge (x := objSize) (a := 8) (by omega)
+  have l8 := alignUp_lt (x := objSize) (a := 8) (by omega)
+  have m8 := alignUp_mod (x := objSize) (a := 8) (by omega)
+  have h16 := alignUp_ge (x := objSize) (a := 16) (by omega)
+  have l16 := alignUp_lt (x := objSize) (a := 16) (by omega)
+  have m16 := alignUp_mod (x := objSize) (a := 16) (by omega)
+  rcases hal with rfl | rfl | rfl
+  · simp only [if_true, show (0:Nat) < 8 by omega]
+    rw [Nat.mod_eq_of_lt (by omega)]
+    split <;> simp <;> omega
+  · simp only [show ¬ (8:Nat) < 8 by omega, if_false, show ¬ (8:Nat) = 0 by omega, show ¬ (8:Nat) = 16 by omega]
+    rw [Nat.mod_eq_of_lt (by omega)]
+    split <;> omega
+  · simp only [show ¬ (16:Nat) < 8 by omega, if_false, show ¬ (16:Nat) = 0 by omega, if_true]
+    rw [Nat.mod_eq_of_lt (by omega)]
+    split <;> omega
+
+/-- `slab_destroy` hands back to the parent exactly the regions obtained from it (the slab struct
+    and every fragment), each once. -/
+theorem slab_destroy_returns_once {s : Slab} {live : List Nat} {ob : List (Nat × Nat)}
+    (h : SReach s live ob) : (slabDestroy s).Perm ob := by
+  rw [(slab_reach_inv h).2]
+  unfold slabDestroy
+  exact List.perm_append_singleton _ _
+
+/-! ## mempool -/
+
+/-- In every state reachable by `mempool_alloc` calls (over a `calloc` that answers with fresh
+    8-aligned memory): `used ≤ size < 2^32` in every segment, segments do not overlap, and every
+    block handed out is 8-aligned, lies behind the header inside the used part of one segment and
+    is disjoint from all other blocks. -/
+theorem mempool_block_ok {mp : MemPool} {live : List Block} {ob : List (Nat × Nat)} (h : MReach mp live ob) :
+    (∀ s ∈ mp.segs, s.used ≤ s.size ∧ s.size < 2 ^ 32) ∧
+    (∀ b ∈ live, b.ptr % 8 = 0 ∧ ∃ s ∈ mp.segs, s.base + mpHdr ≤ b.ptr ∧ b.ptr + b.len ≤ s.base + mpHdr + s.used) ∧
+    live.Pairwise (fun a b => a.ptr + a.len ≤ b.ptr ∨ b.ptr + b.len ≤ a.ptr) := by
+  obtain ⟨hi, _⟩ := mreach_inv h
+  refine ⟨?_, ?_, hi.blk_disj⟩
+  · intro s hs
+    have := hi.seg_ok s hs
+    simp only [MSegOk] at this
+    omega
+  · intro b hb
+    exact ⟨hi.blk_al b hb, hi.blk_in b hb⟩
+
+example : ∃ mp, MReach mp [⟨4216, 300⟩, ⟨4112, 100⟩] [(4096, 528)] ∧ mp.segs = [⟨4096, 512, 408⟩] := by
+  have h1 : MReach _ [⟨4112, 100⟩] _ := MReach.alloc (size := 100) (pa := some 4096) MReach.init
+    (by intro req _ a ha; cases ha; exact ⟨by decide, by intro s hs; cases hs⟩) rfl
+  have h2 := MReach.alloc (size := 300) (pa := none) h1 (by intro req _ a ha; cases ha) rfl
+  exact ⟨_, h2, by decide⟩
+
+/-- `mempool_destroy` frees exactly the regions obtained from `calloc`, each once. -/
+theorem mempool_destroy_returns_once {mp : MemPool} {live : List Block} {ob : List (Nat × Nat)}
+    (h : MReach mp live ob) : mpDestroy mp = ob.reverse ∧ (mpDestroy mp).Nodup := by
+  obtain ⟨hi, ho⟩ := mreach_inv h
+  exact ⟨ho, mpDestroy_nodup hi⟩
+
+/-- F19, unchanged `mempool_alloc`: in a 512-byte segment with 16 bytes used, a request of
+    0xFFFFFFF0 bytes passes the test `cur->used + size <= cur->size` (the sum wraps to 0) and
+    `used` becomes 0, so the next block handed out overlaps the first one. -/
+theorem mempool_f19_old_counterexample :
+    mpFitOld { base := 4096, size := 512, used := 16 } 0xFFFFFFF0 = some (16, 0) := by decide
+
+/- NOT PROVED (delegated to the correspondence run, listed as partial in the evidence):
+   * slab_init_documented : an object returned by slab_alloc without init_func consists of
+     final_size zero bytes; with init_func the function is called exactly once on it.  The models
+     carry no memory contents except for the pool's realloc copy; harness/C09/h.c checks this on
+     every slab_alloc (`ct`).
+   * alloc_stack_ok : the block properties for stacks (pool in tree in talloc-backed cx): follows
+     by instantiating `ParentOk` of the upper layer with `*_block_ok` of the lower one; the glue
+     `Usual.C09.World` that does this composition for the driver is not the subject of a theorem.
+   * real pointers: models use abstract addresses; ASan + the poisoned margins of the tracking
+     base allocator watch the real ones. -/
 end UsualProps.C09
